@@ -3,8 +3,13 @@
 
   env                                   versions, enum check of the wheel against the tree's headers     -> json
   math <fn> hex ...                     a function of mjx/_src/math.py or support.py on IEEE-bit tokens  -> hex ... | error:<why>
+  kbi rs ts sr0 sr1 d0 d1 width mid power pos   constraint._kbi(m, solref, solimp, pos) of the tree with m.opt.timestep = ts and the
+                                        REFSAFE disable bit set iff rs = 0 (hex tokens)                  -> hex k b imp | error:<why>
   model <id> ; line | line | ...        build (harness/py/mjbuild_py.py, wheel MjSpec), put_model, make_data
                                         -> "ok name=value ..." | "notimplemented <where>: <message>" | "error <why>"
+  setm <field> v ...                    overwrite a numeric array of the compiled MjModel (or opt.<name>) in place, same shape; the
+                                        mjx.Model is re-created by put_model before the next forward/step/out (the jitted functions
+                                        are kept: the tree structure is unchanged)                        -> ok | bad-op
   mdump                                 numeric arrays of the wheel-compiled MjModel that mjx.Model reads -> json
   state <json>                          set qpos/qvel/act/ctrl/mocap_*/qfrc_applied/xfrc_applied/time     -> ok
   forward | step <n>                    jit(mjx.forward) / n x jit(mjx.step) on the current data          -> ok
@@ -44,6 +49,7 @@ with contextlib.redirect_stdout(_io.StringIO()), contextlib.redirect_stderr(_io.
     from mujoco.mjx._src import support as msupport  # noqa: E402
     from mujoco.mjx._src import types as mtypes  # noqa: E402
     from mujoco.mjx._src import collision_primitive as mcp  # noqa: E402
+    from mujoco.mjx._src import constraint as mconstraint  # noqa: E402
 import mjbuild_py  # noqa: E402
 
 assert os.path.realpath(mjx.__file__).startswith(os.path.realpath(os.path.join(REPO, "mjx"))), mjx.__file__
@@ -120,6 +126,22 @@ def op_math(a):
     return " ".join(fbits(v) for v in flat(r))
 
 
+def op_kbi(a):
+    """the real `_kbi` of the tree's constraint.py; the model argument carries exactly the two option fields it reads"""
+    if len(a) != 10:
+        return "bad-op"
+    v = [frombits(t) for t in a]
+    if v[0] not in (0.0, 1.0):
+        return "bad-op"
+    flags = 0 if v[0] == 1.0 else int(mtypes.DisableBit.REFSAFE)
+    m = _pytypes.SimpleNamespace(opt=_pytypes.SimpleNamespace(disableflags=flags, timestep=jp.array(v[1])))
+    try:
+        r = mconstraint._kbi(m, jp.array(np.array(v[2:4])), jp.array(np.array(v[4:9])), jp.array(v[9]))  # pylint: disable=protected-access
+    except Exception as e:  # pylint: disable=broad-except
+        return "error:%s:%s" % (type(e).__name__, str(e)[:100].replace("\n", " "))
+    return " ".join(fbits(x) for x in flat(r))
+
+
 SIZE_NAMES = ("nq", "nv", "na", "nu", "nmocap", "nbody", "ngeom", "njnt", "nsensordata", "neq", "ntendon", "nsite", "ncam", "nC", "nuserdata")
 
 
@@ -127,7 +149,7 @@ def op_model(rest):
     if ";" not in rest:
         return "bad-op"
     desc = " ".join(rest[rest.index(";") + 1:]).split("|")
-    S.update(mm=None, mx=None, d=None, fwd=None, step=None)
+    S.update(mm=None, mx=None, d=None, fwd=None, step=None, dirty=False)
     try:
         mm, _ = mjbuild_py.compile_model(desc)
     except mjbuild_py.BuildError as e:
@@ -161,6 +183,33 @@ def op_mdump():
               "ls_iterations", "disableflags", "enableflags", "disableactuator"):
         out["opt." + k] = [float(x) for x in np.asarray(getattr(o, k), dtype=np.float64).reshape(-1)]
     return json.dumps(out)
+
+
+def op_setm(a):
+    mm = S["mm"]
+    name, vals = a[0], [float(t) for t in a[1:]]
+    obj = mm
+    if name.startswith("opt."):
+        obj, name = mm.opt, name[4:]
+    if not hasattr(obj, name):
+        return "bad-op"
+    cur = getattr(obj, name)
+    if isinstance(cur, np.ndarray):
+        if cur.size != len(vals) or cur.dtype.kind not in "fiu":
+            return "bad-op"
+        cur[...] = np.array(vals, dtype=np.float64).reshape(cur.shape).astype(cur.dtype)
+    elif isinstance(cur, (int, float)) and not isinstance(cur, bool) and len(vals) == 1:
+        setattr(obj, name, type(cur)(vals[0]))
+    else:
+        return "bad-op"
+    S["dirty"] = True
+    return "ok"
+
+
+def refresh():
+    if S.get("dirty"):
+        S["mx"] = mjx.put_model(S["mm"])
+        S["dirty"] = False
 
 
 def op_state(txt):
@@ -231,18 +280,24 @@ def main():
                 out = op_env()
             elif w[0] == "math" and len(w) >= 2:
                 out = op_math(w[1:])
+            elif w[0] == "kbi":
+                out = op_kbi(w[1:])
             elif w[0] == "model" and len(w) >= 3:
                 out = op_model(w[2:])
             elif S["mx"] is None:
                 out = "bad-op"
             elif w[0] == "mdump" and len(w) == 1:
                 out = op_mdump()
+            elif w[0] == "setm" and len(w) >= 3:
+                out = op_setm(w[1:])
             elif w[0] == "state":
                 out = op_state(line.split(None, 1)[1])
             elif w[0] == "forward" and len(w) == 1:
+                refresh()
                 S["d"] = S["fwd"](S["mx"], S["d"])
                 out = "ok"
             elif w[0] == "step" and len(w) == 2:
+                refresh()
                 for _ in range(int(w[1])):
                     S["d"] = S["step"](S["mx"], S["d"])
                 out = "ok"
@@ -250,6 +305,7 @@ def main():
                 S["d"] = mjx.make_data(S["mm"])
                 out = "ok"
             elif w[0] == "out" and len(w) >= 2:
+                refresh()
                 out = op_out(w[1:])
             else:
                 out = "bad-op"
